@@ -2,6 +2,7 @@ package vnet
 
 import (
 	"net"
+	"reflect"
 
 	"github.com/pion/logging"
 	"github.com/pion/transport/v3"
@@ -123,11 +124,10 @@ func (v *Net) VerifNetIPs() []net.IP {
 
 // VerifQueue returns the number of chunks and bytes waiting in the token
 // bucket filter's queue. Only meaningful while the filter goroutine is parked.
-func (t *TokenBucketFilter) VerifQueue() (chunks, bytes int) {
-	t.queue.mutex.RLock()
-	defer t.queue.mutex.RUnlock()
+func (t *TokenBucketFilter) VerifQueue() (int, int) {
+	n, b := verifQueueState(t.queue)
 
-	return len(t.queue.chunks), t.queue.currentBytes
+	return n, b
 }
 
 // VerifQueued returns the number of datagrams waiting in the socket's
@@ -160,10 +160,37 @@ type UDPConnLike interface {
 
 // VerifQueueLen returns the number of chunks waiting in the router's queue.
 func (r *Router) VerifQueueLen() int {
-	r.queue.mutex.RLock()
-	defer r.queue.mutex.RUnlock()
+	n, _ := verifQueueState(r.queue)
 
-	return len(r.queue.chunks)
+	return n
+}
+
+// verifQueueState reads the number of waiting chunks and their bytes out of a
+// chunk queue by reflection (fields "chunks" and "currentBytes"), without taking
+// its lock: the harness calls it only while the owning goroutine is parked. If
+// the queue no longer has these fields it answers -1, -1 ("unknown") instead of
+// breaking the build of every check that shares this shim.
+func verifQueueState(q interface{}) (int, int) {
+	v := reflect.ValueOf(q)
+	for v.Kind() == reflect.Ptr || v.Kind() == reflect.Interface {
+		if v.IsNil() {
+			return -1, -1
+		}
+		v = v.Elem()
+	}
+	if v.Kind() != reflect.Struct {
+		return -1, -1
+	}
+	chunks := v.FieldByName("chunks")
+	if !chunks.IsValid() || chunks.Kind() != reflect.Slice {
+		return -1, -1
+	}
+	bytes := -1
+	if cb := v.FieldByName("currentBytes"); cb.IsValid() && cb.CanInt() {
+		bytes = int(cb.Int())
+	}
+
+	return chunks.Len(), bytes
 }
 
 // VerifDrainDelayNotify takes one pending arrival notification of a delay
